@@ -34,6 +34,9 @@ DECODERS = ['k_npy_decode_f4', 'k_npy_decode_f8', 'k_npy_decode_i1', 'k_npy_deco
             'k_npy_decode_u1', 'k_npy_decode_u2', 'k_npy_decode_u4', 'k_npy_decode_u8']
 FOLD_QUICK = ['k_fold_5', 'k_fold_2x4', 'k_fold_1x3']
 FOLD_THOROUGH = ['k_fold_1', 'k_fold_4', 'k_fold_3x4', 'k_fold_3x3', 'k_fold_2x3x2', 'k_fold_2x2x2', 'k_fold_3x1x2x2']
+SITE_NOPROJ = ['k_site_noproj_abn_c0', 'k_site_noproj_abn_c2', 'k_site_noproj_aab_c1', 'k_site_noproj_aab_c2', 'k_site_noproj_baa_c0', 'k_site_noproj_nba_c1']
+SITE_PROJDEC = ['k_site_projdec_aab_c0_to22', 'k_site_projdec_aab_c2_to42', 'k_site_projdec_aab_c1_to20', 'k_site_projdec_baa_c1_to02', 'k_site_projdec_nba_c0_to22']
+SITE_PROJVAL = ['k_site_projval_aab_to21', 'k_site_projval_baa_to12', 'k_site_projval_aab_to02']
 STAT_TOTAL = ['k_stat_total_1d_1', 'k_stat_total_1d_2', 'k_stat_total_1d_3', 'k_stat_total_1d_4', 'k_stat_total_2d_1xn',
               'k_stat_total_2d_2xn', 'k_stat_total_2d_3xn', 'k_stat_total_3d', 'k_stat_total_4d']
 
@@ -58,12 +61,10 @@ KANI_META.update({
     'k_npy_write_header_len': K('complete', 'none: all header_len values admissible for the version, 3 versions', ['Version::write_header_len', 'Version::header_len_bytes_len']),
     'k_npy_version_bytes': K('complete', 'none: all [u8;2]', ['Version::from_header_bytes', 'Version::to_header_bytes']),
     'k_npy_read_header_len': K('complete', 'none: all [u8;4]; short inputs of 1 and 3 bytes', ['Version::read_header_len']),
-    'k_npy_decode_partial_value_is_error': K('bounded', 'stream lengths 0..=9 bytes (f4 values), contents symbolic', ['TypeDescriptor::read']),
+    'k_npy_decode_partial_value_is_error': K('bounded', 'streams of 3 and 6 bytes (f4 values), contents symbolic', ['TypeDescriptor::read']),
+    'k_npy_header_write_short_writes': K('bounded', 'header of shape (3,) through sinks accepting 1, 3, 7 bytes per call (HeaderDict Display stubbed by its text)', ['Header::write', 'Version::write_header_len']),
+    'k_npy_header_write_failing_sink': K('bounded', 'sink failing at offsets 0, 5, 7, 9, 11, 70, 127', ['Header::write']),
     'k_npy_f64_le_roundtrip': K('complete', 'none: all 2^64 bit patterns', ['f64::to_le_bytes', 'f64::from_le_bytes']),
-    'k_site_read_site_no_projection': K('bounded', '3 input columns, 2 populations; complete in the column->population table, the genotype result per column and the pre-state of all accumulators',
-                                        ['site::Reader::read_site', 'site::Reader::reset', 'Count::set_zero']),
-    'k_site_read_site_projection': K('bounded', '3 input columns, 2 populations, targets 0..=6 per population; complete in table, results, pre-state (incl. dirty projection buffer)',
-                                     ['site::Reader::read_site', 'PartialProjection::project_unchecked', 'Projected::add_unchecked', 'ProjectIter::next', 'ProjectIter::project_value']),
     'k_detect_spectrum_format': K('complete', 'every byte string of length 0..=8', ['spectrum::io::Format::detect', 'detect_npy', 'detect_plain_text']),
     'k_detect_genotype_stream': K('complete', 'every stream of 0..=6 bytes, first fill_buf chunk of 3..=6 bytes (shorter first chunks: known finding F14)', ['CompressionMethod::detect', 'genotype::reader::builder::Format::detect (uncompressed branch)']),
     'k_proj_validation_2d': K('complete', 'two axes, all usize values', ['Projection::new']),
@@ -71,16 +72,22 @@ KANI_META.update({
     'k_proj_wiring_4_to_3': K('bounded', 'shape [4] -> [3]', ['Spectrum::project', 'Projection::project_unchecked', 'Projected::add_unchecked', 'ProjectIter']),
     'k_proj_wiring_3x2_to_2x2': K('bounded', 'shape [3,2] -> [2,2]', ['Spectrum::project']),
     'k_proj_wiring_2x3x2_to_2x2x1': K('bounded', 'shape [2,3,2] -> [2,2,1]', ['Spectrum::project']),
-    'k_marg_errors': K('complete', 'axis lists of length 0..=3 over all usize values, spectrum with 3 axes', ['Spectrum::marginalize (validation)']),
+    'k_marg_errors': K('bounded', '9 concrete rejected axis lists (duplicates adjacent and not, out-of-range incl. usize::MAX, all axes) and 2 accepted ones on a 3-axis spectrum', ['Spectrum::marginalize (validation)']),
     'k_marg_2x3': K('bounded', 'shape [2,3], each single axis', ['Spectrum::marginalize', 'marginalize_unchecked', 'marginalize_axis', 'Array::sum']),
     'k_marg_2x3x2_single': K('bounded', 'shape [2,3,2], each single axis', ['Spectrum::marginalize']),
     'k_marg_2x3x2_pairs_both_orders': K('bounded', 'shape [2,3,2], every pair of axes in both orders', ['Spectrum::marginalize']),
     'k_marg_3x2x1x2_triples': K('bounded', 'shape [3,2,1,2], four axis lists incl. unsorted triples', ['Spectrum::marginalize']),
-    'k_stat_king_r0_r1_definition': K('complete', 'all 3x3 tables with integer cells < 2^16', ['King/R0/R1::from_spectrum']),
+    'k_stat_king_r0_r1_definition': K('bounded', '3 concrete asymmetric integer 3x3 tables', ['King/R0/R1::from_spectrum']),
     'k_stat_monomorphic_1d': K('bounded', 'shapes [4], [5]; monomorphic cells over all f64 bit patterns', ['Theta<Watterson/Tajima>', 'D<Tajima/FuLi>', 'Scs::segregating_sites']),
     'k_stat_monomorphic_2d': K('bounded', 'shapes [3,3], [2,4]; monomorphic cells over all f64 bit patterns', ['PiXY', 'King', 'R0', 'R1', 'Scs::segregating_sites']),
     'k_stat_s_sum_pixy_definition': K('bounded', 'shape [3,4], integer-valued cells', ['Spectrum::sum', 'Scs::segregating_sites', 'PiXY::from_spectrum']),
 })
+KANI_META.update(meta_for(SITE_NOPROJ, 'bounded', '3 input columns, 2 populations; column->population table and the results of two columns fixed per harness (in its name: table, symbolic column); the third column takes every genotype::Result incl. Error; pre-state: non-zero counts/totals and a stale skipped entry',
+                          ['site::Reader::read_site', 'site::Reader::reset', 'Count::set_zero']))
+KANI_META.update(meta_for(SITE_PROJDEC, 'bounded', 'as K-site no-projection, with a fixed projection target (in the name) and a dirty projection buffer: decision Standard / Projected / InsufficientData',
+                          ['site::Reader::read_site (projection branch)', 'PartialProjection::project_unchecked']))
+KANI_META.update(meta_for(SITE_PROJVAL, 'bounded', 'concrete record, fixed target (in the name), dirty projection buffer: every projected value = product of pmf_stub(t_j, a_j, m_j, k_j), row-major',
+                          ['site::Reader::read_site', 'PartialProjection::project_unchecked', 'Projected::add_unchecked', 'ProjectIter::next', 'ProjectIter::project_value', 'Count::set_zero']))
 KANI_META.update(meta_for(FOLD_QUICK + FOLD_THOROUGH, 'bounded', 'one concrete shape per harness (in its name), distinct integer-valued cells, fill over all f64 bit patterns',
                           ['Folded::from_spectrum', 'Folded::into_spectrum', 'Spectrum::fold', 'Shape::index_sum_from_flat_unchecked']))
 KANI_META.update(meta_for(STAT_TOTAL, 'bounded', 'the shapes listed in the harness; all 14 statistics; utils::binomial stubbed by an exact table (n <= 8)',
@@ -97,8 +104,8 @@ REGISTRY = {
         'title': 'create counts every complete site once at its per-population ALT index',
         'level': 'model_checking',
         'verus': ['v_geno'],
-        'kani_quick': ['k_geno_diploid_classification', 'k_site_read_site_no_projection'],
-        'kani_thorough': ['k_index_get_2x3', 'k_index_bijection_2x3'],
+        'kani_quick': ['k_geno_diploid_classification', 'k_site_noproj_abn_c0', 'k_site_noproj_abn_c2', 'k_site_noproj_aab_c1'],
+        'kani_thorough': ['k_site_noproj_aab_c2', 'k_site_noproj_baa_c0', 'k_site_noproj_nba_c1', 'k_index_get_2x3', 'k_index_bijection_2x3'],
         'assumptions': [A_NOODLES, A_SAMPLEMAP, A_BIN, 'Runner::run adds 1.0 at the index returned by read_site (bin crate, not verified); the shape rule 1+2*size is part of the assumed sample::Map contract'],
         'not_decided': ['end-to-end composition VCF/BCF bytes -> printed integers', 'sample::Map::shape', 'Runner::run', 'precision 0 printing'],
     },
@@ -107,8 +114,8 @@ REGISTRY = {
         'level': 'model_checking',
         'verus': ['v_projiter'],
         'verus_pairs': {'v_projiter': ['k_proj_wiring_3x2_to_2x2']},
-        'kani_quick': ['k_site_read_site_projection', 'k_proj_validation_2d'],
-        'kani_thorough': ['k_proj_wiring_4_to_3', 'k_proj_wiring_3x2_to_2x2', 'k_proj_validation_dimensions'],
+        'kani_quick': ['k_site_projdec_aab_c0_to22', 'k_site_projdec_aab_c1_to20', 'k_site_projval_aab_to21', 'k_proj_validation_2d'],
+        'kani_thorough': ['k_site_projdec_aab_c2_to42', 'k_site_projdec_baa_c1_to02', 'k_site_projdec_nba_c0_to22', 'k_site_projval_baa_to12', 'k_site_projval_aab_to02', 'k_proj_wiring_4_to_3', 'k_proj_wiring_3x2_to_2x2', 'k_proj_validation_dimensions'],
         'assumptions': [A_NOODLES, A_SAMPLEMAP, A_PMF, A_BIN, 'site::reader::Builder::build (dimension/size validation against the sample map, individuals -> 2i+1) needs the hash-map sample table and is not verified'],
         'not_decided': ['values of the hypergeometric pmf', '--project-individuals i == --project-shape 2i+1 (builder.rs Project::shape, not under contract)', '--precision printing'],
     },
@@ -136,7 +143,7 @@ REGISTRY = {
         'title': 'folding is mass-preserving, idempotent and symmetric under allele polarity',
         'level': 'proof',
         'verus': ['v_indexsum'],
-        'verus_pairs': {'v_indexsum': ['k_fold_2x4']},
+        'verus_pairs': {'v_indexsum': ['k_fold_2x4', 'k_fold_3x1x2x2']},
         'kani_quick': FOLD_QUICK,
         'kani_thorough': FOLD_THOROUGH,
         'assumptions': [A_FLOATSUM, A_BIN, 'Shape::elements (iterator product) is assumed in V-indexsum and checked by K-index on concrete shapes',
@@ -166,15 +173,15 @@ REGISTRY = {
         'level': 'proof',
         'verus': ['v_geno'],
         'kani_quick': ['k_geno_diploid_classification', 'k_geno_haploid_is_ploidy_error', 'k_geno_triploid_is_ploidy_error',
-                       'k_geno_absent_is_missing', 'k_geno_try_from_raw', 'k_site_read_site_no_projection'],
+                       'k_geno_absent_is_missing', 'k_geno_try_from_raw', 'k_site_noproj_nba_c1'],
         'assumptions': [A_NOODLES, 'ploidy > 3 behaves like ploidy 3 (slice pattern [a, b] matches length 2 only)', A_SAMPLEMAP],
         'not_decided': ['error message naming contig:position (anyhow! in the bin crate)', 'GT text / BCF bytes -> alleles (noodles)'],
     },
     'C09': {
         'title': 'axes follow first appearance of population labels; only listed samples count',
         'level': 'model_checking',
-        'kani_quick': ['k_site_read_site_no_projection'],
-        'kani_thorough': ['k_site_read_site_projection'],
+        'kani_quick': ['k_site_noproj_abn_c2', 'k_site_noproj_baa_c0'],
+        'kani_thorough': ['k_site_noproj_nba_c1', 'k_site_noproj_aab_c1'],
         'assumptions': [A_SAMPLEMAP, A_NOODLES, A_BIN],
         'not_decided': ['first-appearance id assignment (population::Map::get_or_insert: closure mutating its capture over an IndexSet -- outside Verus\' subset, hash set outside CBMC\'s reach)',
                         'samples-file parsing, --samples vs --samples-file, unknown-sample / empty-list errors (Builder::build)'],
@@ -183,16 +190,16 @@ REGISTRY = {
         'title': "a site's contribution is independent of earlier sites (additive, order-free)",
         'level': 'model_checking',
         'verus': ['v_projiter'],
-        'verus_pairs': {'v_projiter': ['k_site_read_site_projection']},
-        'kani_quick': ['k_site_read_site_no_projection', 'k_site_read_site_projection'],
+        'verus_pairs': {'v_projiter': ['k_site_projval_aab_to21']},
+        'kani_quick': ['k_site_noproj_aab_c2', 'k_site_projval_aab_to02', 'k_site_projdec_baa_c1_to02'],
         'assumptions': [A_SAMPLEMAP, A_PMF, 'history independence is shown by running read_site from an ARBITRARY pre-state of counts/totals/skipped list/projection buffer: every reachable state is an instance'],
         'not_decided': ['additivity / permutation of the running sum in Runner::run (bin crate)', 'floating-point summation order with projection'],
     },
     'C14': {
         'title': 'statistics are invariant under the transformations that must not matter',
         'level': 'model_checking',
-        'kani_quick': ['k_stat_king_r0_r1_definition', 'k_stat_monomorphic_2d'],
-        'kani_thorough': ['k_stat_monomorphic_1d'],
+        'kani_quick': ['k_stat_king_r0_r1_definition', 'k_stat_monomorphic_1d'],
+        'kani_thorough': ['k_stat_monomorphic_2d'],
         'assumptions': [A_PMF, A_FLOATSUM],
         'not_decided': ['f3/f4 as combinations of f2 of marginals, invariance under folding, general positive scale factors, f2/Fst/pi_xy swap symmetry (real-number identities that do not hold bitwise in f64)'],
     },
@@ -209,8 +216,8 @@ REGISTRY = {
     'C16': {
         'title': 'damaged spectrum files are rejected, never read as a different spectrum',
         'level': 'model_checking',
-        'kani_quick': ['k_npy_decode_partial_value_is_error', 'k_npy_read_header_len', 'k_detect_spectrum_format', 'k_index_get_2x3_len1'],
-        'kani_thorough': [],
+        'kani_quick': ['k_npy_read_header_len', 'k_detect_spectrum_format', 'k_index_get_2x3_len1'],
+        'kani_thorough': ['k_npy_decode_partial_value_is_error'],
         'assumptions': ['claimed for the value section and the length field: a partial trailing value or a short length field is an error; Array::new rejects a value count different from the product of the shape (checked with K-index harnesses through Array::from_iter)',
                         'truncation inside the header dictionary and text-format damage go through nom / str parsing and are not verified'],
         'not_decided': ['text token removal/insertion', 'CLI exit status and "nothing written"'],
@@ -219,7 +226,7 @@ REGISTRY = {
         'title': 'every invocation ends in success or a diagnosed error, never a panic',
         'level': 'model_checking',
         'verus': ['v_axis', 'v_view', 'v_axisiter', 'v_npyhdr', 'v_indexsum', 'v_projiter'],
-        'kani_quick': ['k_detect_spectrum_format', 'k_marg_errors', 'k_proj_validation_2d', 'k_stat_total_1d_3'],
+        'kani_quick': ['k_detect_spectrum_format', 'k_marg_errors', 'k_proj_validation_2d', 'k_stat_total_1d_1', 'k_stat_total_1d_2', 'k_stat_total_1d_3'],
         'kani_thorough': STAT_TOTAL,
         'assumptions': [A_BIN, A_NOODLES, 'panic-freedom (overflow, bounds, unwrap/expect, division) is an obligation of every function under contract in the Verus units and of every Kani harness; it is claimed for those functions under their stated preconditions only'],
         'not_decided': ['totality of the process over arbitrary bytes (noodles, flate2, nom, clap)', "main's mapping of Err to exit status 1", 'sample::Map::shape unwrap on contradictory sample lists'],
@@ -228,8 +235,9 @@ REGISTRY = {
         'title': 'results do not depend on how the byte stream is chunked; I/O errors surface',
         'level': 'proof',
         'verus': ['v_npyhdr'],
-        'kani_quick': ['k_detect_genotype_stream', 'k_npy_decode_partial_value_is_error', 'k_npy_read_header_len'],
-        'kani_thorough': [],
+        'verus_pairs': {'v_npyhdr': ['k_npy_header_write_short_writes', 'k_npy_header_write_failing_sink']},
+        'kani_quick': ['k_detect_genotype_stream', 'k_npy_read_header_len'],
+        'kani_thorough': ['k_npy_decode_partial_value_is_error', 'k_npy_header_write_short_writes', 'k_npy_header_write_failing_sink'],
         'assumptions': ['writer: for every sink obeying the write_all contract the bytes are the same sequence however many the sink accepts per call, and Ok is returned only if no write failed (V-npyhdr, unbounded)',
                         'reader: read_exact / fill_buf of std are assumed chunk-independent; the npy value loop is exercised on slices only'],
         'not_decided': ['VCF/BCF/BGZF streams (noodles, flate2)', 'text writer (writeln!/format!)', 'BGZF branch of format detection (gzip decoder over the first buffer)'],
